@@ -47,6 +47,31 @@ def forRangeRet {ρ σ} (lo hi : Int) (f : Int → σ → Option ρ × σ) (s : 
       | some _ => acc
       | none => f (lo + (k : Int)) acc.2) (none, s)
 
+/-- the same with an unsigned loop variable. -/
+def forRangeN {σ} (lo hi : Nat) (f : Nat → σ → σ) (s : σ) : σ :=
+  (List.range (hi - lo)).foldl (fun s (k : Nat) => f (lo + k) s) s
+
+/-- `for i := hi; i >= lo; i-- { s = f i s }`. -/
+def forDown {σ} (hi lo : Int) (f : Int → σ → σ) (s : σ) : σ :=
+  (List.range (hi - lo + 1).toNat).foldl (fun s (k : Nat) => f (hi - (k : Int)) s) s
+
+/-- `for cond(s) { body }` without a syntactic bound, run with fuel.  `body` yields `(some r, s)` to return `r`
+    from the enclosing function.  Result: (fuel exhausted, returned value, final state).  A function that
+    contains such a loop reports exhaustion in its extra `terminated` result; the theorems about it show
+    that this never happens. -/
+def whileFuel {ρ σ} : Nat → (σ → Bool) → (σ → Option ρ × σ) → σ → Bool × Option ρ × σ
+  | 0, cond, _, s => (cond s, none, s)
+  | fuel + 1, cond, body, s =>
+    if cond s then
+      match body s with
+      | (some r, s') => (false, some r, s')
+      | (none, s') => whileFuel fuel cond body s'
+    else (false, none, s)
+
+/-- unsigned 64-bit addition and subtraction (wrap around). -/
+@[inline] def u64add (a b : Nat) : Nat := (a + b) % 18446744073709551616
+@[inline] def u64sub (a b : Nat) : Nat := (a + 18446744073709551616 - b % 18446744073709551616) % 18446744073709551616
+
 @[inline] def deref {α} [Inhabited α] (o : Option α) : α := o.getD default
 @[inline] def strBytes (s : String) : Bytes := s.toUTF8.toList
 
@@ -95,6 +120,12 @@ namespace fe
 /-- `z.Exp(x, e)` for `e ≥ 0`. -/
 @[inline] def exp (m x : Nat) (e : Int) : Nat := powMod x e.toNat m
 @[inline] def toBigIntRegular (x : Nat) : Int := (x : Int)
+/-- the element whose Montgomery representation has the given little-endian 64-bit limbs:
+    `limbs · R⁻¹ mod m`, `R = 2^(64·#limbs)`. -/
+def ofMont (m : Nat) (limbs : List Nat) : Nat :=
+  let v := limbs.foldr (fun x acc => x + 18446744073709551616 * acc) 0
+  let r := (2 ^ (64 * limbs.length)) % m
+  v % m * invMod r m % m
 
 end fe
 end I3.Go
